@@ -302,16 +302,19 @@ func runCase(c Case) lib.Result {
 	return res
 }
 
-func run(cases []json.RawMessage, dir string) error {
-	var results []lib.Result
-	for _, raw := range cases {
-		var c Case
-		if err := json.Unmarshal(raw, &c); err != nil {
-			return err
-		}
-		results = append(results, runCase(c))
+func main() {
+	h := lib.Harness{
+		Gen: gen,
+		RunCase: func(raw json.RawMessage) (lib.Result, error) {
+			var c Case
+			if err := json.Unmarshal(raw, &c); err != nil {
+				return lib.Result{}, err
+			}
+			return runCase(c), nil
+		},
+		Header:   "From Dastard Require Import Common.ZX Common.CaseLib C18.Model C18.Run.",
+		Verdict:  "verdict",
+		PerShard: 150,
 	}
-	return lib.WriteRun(dir, "From Dastard Require Import Common.ZX Common.CaseLib C18.Model C18.Run.", "verdict", results, 150)
+	h.Main()
 }
-
-func main() { lib.Main(gen, run) }
